@@ -144,3 +144,29 @@ func TestReplaySearchAlias(t *testing.T) {
 		t.Fatalf("CONFIRMED: %d rule(s) keep firing on a remembered condition after the action wrote the same location through another selector expression: %s", len(bad), strings.Join(bad, " ; "))
 	}
 }
+
+// Two paths that reach the same struct through a shared pointer (its own harness: it demonstrates an open finding).
+type replayPtrInner struct{ V int64 }
+type replayPtrFact struct{ P, Q *replayPtrInner }
+
+func TestReplaySearchPointerAlias(t *testing.T) {
+	grl := `rule Count "c" { when F.P.V < 3 then F.Q.V = F.Q.V + 1; }`
+	lib := ast.NewKnowledgeLibrary()
+	if err := builder.NewRuleBuilder(lib).BuildRuleFromResource("K", "1", pkg.NewBytesResource([]byte(grl))); err != nil {
+		t.Fatalf("build %s: %v", grl, err)
+	}
+	kb, err := lib.NewKnowledgeBaseInstance("K", "1")
+	if err != nil {
+		t.Fatal(err)
+	}
+	in := &replayPtrInner{}
+	f := &replayPtrFact{P: in, Q: in}
+	d := ast.NewDataContext()
+	d.Add("F", f)
+	e := NewGruleEngine()
+	e.MaxCycle = 30
+	res := e.Execute(d, kb)
+	if res != nil || in.V != 3 {
+		t.Fatalf("CONFIRMED: F.P and F.Q point to the same struct; `%s` ends with V=%d (want 3), Execute returned an error: %v - the condition remembered for F.P.V survived the write through F.Q.V", grl, in.V, res != nil)
+	}
+}
